@@ -43,6 +43,9 @@ def gen_case(rnd, tier, index):
     spec = wbgen.generate(rnd, knobs)
     if rnd.random() < 0.1:
         wbgen.add_lookup_gadget(rnd, spec)        # a list no input feeds behind whole-column lookups
+    branch = rnd.random() < 0.1
+    if branch:
+        wbgen.add_branch_gadget(rnd, spec)        # branches only one of which is calculated
     dag = wbgen.Dag(spec)
     origin = rnd.choice(('nodata', 'nodata', 'xlsx'))
     cfg = {'origin': origin}
@@ -53,6 +56,8 @@ def gen_case(rnd, tier, index):
     outputs = rnd.sample(formulas, min(n_out, len(formulas)))
     if spec.get('lookup_gadget') and rnd.random() < 0.8:
         outputs = rnd.sample(spec['lookup_gadget'], min(len(spec['lookup_gadget']), rnd.choice((1, 2, 3))))
+    if branch and rnd.random() < 0.85:
+        outputs = list(spec['branch_gadget']['outputs'])
     pinned = set(spec.get('pinned', ()))
     anc = set()
     for o in outputs:
@@ -75,6 +80,9 @@ def gen_case(rnd, tier, index):
     if leaf:
         k = rnd.randint(1, min(3, len(leaf)))
         inputs += rnd.sample(leaf, k)
+        if branch and spec['branch_gadget']['switch'] in leaf and \
+                spec['branch_gadget']['switch'] not in inputs:
+            inputs.append(spec['branch_gadget']['switch'])
         kinds.append('leaf')
     roll = rnd.random()
     if wranges and roll < 0.35:
